@@ -120,7 +120,8 @@ def run(tier, seed, model_ok, spec_ok, replay=None):
                 # argument of a several-parameter callable, which the spec language cannot express): refusal is the right outcome
                 dist["refused-path-inside-container-argument"] += 1
                 continue
-            direct.append({"kind": "direct", "what": f"schema JSON round trip raised {out[1]}", "schema": [r.descr()[:200] for r in rts]})
+            direct.append({"kind": "direct", "what": f"schema JSON round trip raised {out[1]}", "schema": [r.descr()[:200] for r in rts],
+                           "flags": d50_flags(rts)})
             continue
         js, s2 = out[1]
         if modded:
@@ -166,5 +167,19 @@ def deep_path_flags(cg, rts):
     return []
 
 
+def d50_flags(rts):
+    """Known finding D50 (see C11): a data path as the value of an items_contain item, in a keyword mapping one of whose NAMES contains
+    "path": the mapping is written escaped and cannot hold a path spec."""
+    for rt in rts:
+        for l in nested_leaves(rt.cond):
+            if l.method == "items_contain" and any(isinstance(k, str) and "path" in k for k in l.kwargs) \
+                    and any(isinstance(x, PathT) for x in l.kwargs.values()):
+                return ["path-value-in-mapping-with-path-like-key"]
+    return []
+
+
 def matches_known(known, case):
-    return False
+    m = known.get("match", {})
+    if "flag" not in m or m["flag"] not in case.get("flags", []):
+        return False
+    return "what" not in m or case.get("what") == m["what"]
